@@ -14,5 +14,5 @@ VERIF_REPO="$W" "$(dirname "$0")/../check" "$PID" --tier "$TIER"
 RC=$?
 git -C /repo worktree remove --force "$W"
 TAG=$(printf %s "$W" | sha1sum | cut -c1-8)
-rm -rf "/verif/.build/alt-$TAG" /verif/.build/*-"$TAG" 2>/dev/null
+rm -rf "$(dirname "$0")/../.build/alt-$TAG" $(dirname "$0")/../.build/*-"$TAG" 2>/dev/null
 exit $RC
